@@ -7,8 +7,10 @@ use duckscript::types::runtime::Context;
 use serde_json::{json, Value};
 
 const PIECES: [&str; 12] = ["a", "b", "B", "é", "日", " ", "  ", "\t", "ab", "-", ",", "aa"];
-const NUMS: [&str; 22] = ["0", "1", "-1", "2", "10", "9", "16777216", "16777217", "1700000001000", "1700000000000", "-100000000", "-100000001",
-    "0.3", "0.300000001", "1e3", "1000", "-0", "007", "3.0", "3", "x", ""];
+// includes values that differ by less than any "tolerance" a comparison might be tempted to use
+const NUMS: [&str; 30] = ["0", "1", "-1", "2", "10", "9", "16777216", "16777217", "1700000001000", "1700000000000", "-100000000", "-100000001",
+    "0.3", "0.300000001", "1e3", "1000", "-0", "007", "3.0", "3", "x", "",
+    "1e-20", "1e-18", "0.0000000000000001", "0.0000000000000002", "1e-17", "-1e-17", "1.0000000000000002", "1e300"];
 
 fn mk(r: &mut Rng, n: usize) -> String {
     (0..n).map(|_| r.pick(&PIECES).to_string()).collect()
